@@ -14,6 +14,8 @@ def corr(rng, tier):
 def search(rng, tier, broken, cases):
     n = 108 if tier == "quick" and not broken else 648
     S = IS.search_c05(rng, n)
+    import dtypesearch
+    dtypesearch.search_dtype(rng, 12 if tier == "quick" and not broken else 60, ['ops'], pid="C05", S=S)   # same numbers typed int64 vs float64
     return S.violations, S.stats()
 
 
